@@ -565,3 +565,139 @@ mut('C02', 'jsonparser', """    metadata = {}
     for tag, raw in meta.items():
         grid_meta[tag] = parse_embedded_scalar(raw, version=version)
     metadata = grid_meta""", 'OK', name='refactor: locals renamed in parse_grid')
+
+mut('C14', 'grid', """            result=Grid(version=self.version,metadata=self.metadata,columns=self.column)
+            result._row=self._row[key]
+            result._index=None
+            return result""", """            part=Grid(version=self.version,metadata=self.metadata,columns=self.column)
+            part._row=self._row[key]
+            part._index=None
+            return part""", 'OK', name='refactor: rename local in slice branch')
+mut('C15', 'grid', """            result=Grid(version=self.version,metadata=self.metadata,columns=self.column)
+            result._row=self._row[key]
+            result._index=None
+            return result""", """            part=Grid(version=self.version,metadata=self.metadata,columns=self.column)
+            part._row=self._row[key]
+            part._index=None
+            return part""", 'OK', name='refactor: rename local in slice branch')
+mut('C10', 'grid', """                mo = MetadataObject(validate_fn=self._detect_or_validate)
+                mo.extend(col_meta)
+                self.column.add_item(col_id, mo)""", """                col_md = MetadataObject(validate_fn=self._detect_or_validate)
+                col_md.extend(col_meta)
+                self.column.add_item(col_id, col_md)""", 'OK', name='refactor: rename local in Grid.__init__')
+mut('C13', 'grid_filter', """        fun_name = "_gen_hsfilter_" + str(_id_function)
+        _id_function += 1
+    function_template = "def %s(_grid, _entity):\\n  return " % fun_name + "".join(def_filter)
+    print("\\nGenerate:\\n# " + filter + "\\n" + function_template)  # FIXME: debug
+    return _FnWrapper(fun_name, function_template)""", """        name = "_gen_hsfilter_" + str(_id_function)
+        _id_function += 1
+    function_template = "def %s(_grid, _entity):\\n  return " % name + "".join(def_filter)
+    print("\\nGenerate:\\n# " + filter + "\\n" + function_template)  # FIXME: debug
+    return _FnWrapper(name, function_template)""", 'OK', name='refactor: rename fun_name')
+mut('C12', 'grid_filter', """        fun_name = "_gen_hsfilter_" + str(_id_function)
+        _id_function += 1
+    function_template = "def %s(_grid, _entity):\\n  return " % fun_name + "".join(def_filter)
+    print("\\nGenerate:\\n# " + filter + "\\n" + function_template)  # FIXME: debug
+    return _FnWrapper(fun_name, function_template)""", """        name = "_gen_hsfilter_" + str(_id_function)
+        _id_function += 1
+    function_template = "def %s(_grid, _entity):\\n  return " % name + "".join(def_filter)
+    print("\\nGenerate:\\n# " + filter + "\\n" + function_template)  # FIXME: debug
+    return _FnWrapper(name, function_template)""", 'OK', name='refactor: rename fun_name')
+mut('C11', 'grid_filter', "    lambda toks: FilterBinary(toks[1], toks[0], toks[2])", "    lambda t: FilterBinary(t[1], t[0], t[2])", 'OK', name='refactor: rename lambda parameter')
+mut('C11', 'grid_filter', """    lambda toks: FilterUnary("not", toks[0])""", """    lambda parts: FilterUnary("not", parts[0])""", 'OK', name='refactor: rename lambda parameter (not)')
+mut('C01', 'zincparser', """    g = Grid(version=grid_meta.pop('ver'),
+             metadata=grid_meta,
+             columns=list(col_meta.items()))
+    g.extend(map(lambda row: dict(zip(col_meta.keys(), row)), rows))
+    return g""", """    grid = Grid(version=grid_meta.pop('ver'),
+                metadata=grid_meta,
+                columns=list(col_meta.items()))
+    grid.extend(map(lambda r: dict(zip(col_meta.keys(), r)), rows))
+    return grid""", 'OK', name='refactor: rename locals in _gen_grid')
+mut('C09', 'zincparser', """    except pp.ParseException as pe:
+        LOG.debug('Failing grid: %r', grid_data)
+        raise ZincParseException(
+            'Failed to parse: %s' % reformat_exception(pe, pe.lineno),
+            grid_data, pe.lineno, pe.col)""", """    except pp.ParseException as err:
+        LOG.debug('Failing grid: %r', grid_data)
+        raise ZincParseException(
+            'Failed to parse: %s' % reformat_exception(err, err.lineno),
+            grid_data, err.lineno, err.col)""", 'OK', name='refactor: rename exception variable')
+mut('C16', 'sortabledict', """        if (index is not None) and (pos_key is not None):
+            raise ValueError('Either specify index or pos_key, not both.')
+        elif pos_key is not None:""", """        if index is not None and pos_key is not None:
+            raise ValueError('Either specify index or pos_key, not both.')
+        if pos_key is not None:""", 'OK', name='refactor: elif -> if after raise')
+mut('C19', 'datatypes', """    def __eq__(self, other):
+        if not isinstance(other, Coordinate):
+            return NotImplemented
+        return (self.latitude == other.latitude) and \\
+               (self.longitude == other.longitude)""", """    def __eq__(self, rhs):
+        if not isinstance(rhs, Coordinate):
+            return NotImplemented
+        return (self.latitude == rhs.latitude) and \\
+               (self.longitude == rhs.longitude)""", 'OK', name='refactor: rename parameter of __eq__')
+mut('C18', 'version', """        num1 = self.version_nums
+        num2 = other.version_nums
+
+        # Pad both to be the same length
+        ver_len = max(len(num1), len(num2))
+        num1 += tuple([0 for n in range(len(num1), ver_len)])
+        num2 += tuple([0 for n in range(len(num2), ver_len)])""", """        mine = self.version_nums
+        theirs = other.version_nums
+
+        # Pad both to be the same length
+        width = max(len(mine), len(theirs))
+        mine += tuple([0 for n in range(len(mine), width)])
+        theirs += tuple([0 for n in range(len(theirs), width)])
+
+        num1 = mine
+        num2 = theirs""", 'OK', name='refactor: rename padding locals')
+mut('C20', 'datatypes', """    def __add__(self, other):
+        if isinstance(other, Qty):
+            other = other.value
+        return self.value + other""", """    def __add__(self, rhs):
+        if isinstance(rhs, Qty):
+            rhs = rhs.value
+        return self.value + rhs""", 'OK', name='refactor: rename operand parameter')
+mut('C05', 'parser', """        if isinstance(grid_str, six.string_types):
+            grid_data = json.loads(grid_str)
+        else:
+            grid_data = grid_str""", """        if isinstance(grid_str, six.string_types):
+            decoded = json.loads(grid_str)
+        else:
+            decoded = grid_str
+        grid_data = decoded""", 'OK', name='refactor: intermediate local in parse')
+mut('C07', 'jsondumper', """    _meta = dict(map(_dump, list(meta.items())))
+    if grid:
+        _meta['ver'] = str(version)
+    return _meta""", """    out = dict(map(_dump, list(meta.items())))
+    if grid:
+        out['ver'] = str(version)
+    return out""", 'OK', name='refactor: rename local in dump_meta')
+mut('C06', 'jsondumper', """    _meta = dict(map(_dump, list(meta.items())))
+    if grid:
+        _meta['ver'] = str(version)
+    return _meta""", """    out = dict(map(_dump, list(meta.items())))
+    if grid:
+        out['ver'] = str(version)
+    return out""", 'OK', name='refactor: rename local in dump_meta')
+mut('C02', 'jsondumper', """    _meta = dict(map(_dump, list(meta.items())))
+    if grid:
+        _meta['ver'] = str(version)
+    return _meta""", """    out = dict(map(_dump, list(meta.items())))
+    if grid:
+        out['ver'] = str(version)
+    return out""", 'OK', name='refactor: rename local in dump_meta')
+mut('C17', 'zoneinfo', """    for olson_name, haystack_name in list(tz_rmap.items()):
+        if dt.astimezone(pytz.timezone(olson_name)).utcoffset() == offset:
+            return haystack_name""", """    for olson, name in list(tz_rmap.items()):
+        if dt.astimezone(pytz.timezone(olson)).utcoffset() == offset:
+            return name""", 'OK', name='refactor: rename loop variables in the scan')
+mut('C03', 'parser', """        grid_str = TRAILING_NL_RE.sub('', grid_str)
+        if grid_str:
+            grid_str += '\\n'
+        grid_data = [g for g in GRID_SEP.split(grid_str) if g]""", """        text = TRAILING_NL_RE.sub('', grid_str)
+        if text:
+            text += '\\n'
+        grid_data = [piece for piece in GRID_SEP.split(text) if piece]""", 'OK', name='refactor: rename locals in parse framing')
